@@ -55,7 +55,8 @@ pub fn ref_boundary_features(cfg: &TrainCfg, chars: &[char], i: usize) -> BTreeM
     // character n-grams of length 1..=charn lying inside the window [b+1-W, b+1+W)
     let w = cfg.charw as isize;
     for len in 1..=cfg.charn as isize {
-        for j in 0..n as isize {
+        // only start positions near the boundary can satisfy the window condition below
+        for j in (b + 1 - w).max(0)..(b + 2 + w).min(n as isize) {
             if j >= b + 1 - w && j + len <= b + 1 + w && j + len <= n as isize {
                 let ngram: String = chars[j as usize..(j + len) as usize].iter().collect();
                 *out.entry(HookFeature::CharNgram {
@@ -68,7 +69,7 @@ pub fn ref_boundary_features(cfg: &TrainCfg, chars: &[char], i: usize) -> BTreeM
     }
     let w = cfg.typew as isize;
     for len in 1..=cfg.typen as isize {
-        for j in 0..n as isize {
+        for j in (b + 1 - w).max(0)..(b + 2 + w).min(n as isize) {
             if j >= b + 1 - w && j + len <= b + 1 + w && j + len <= n as isize {
                 let ngram = types[j as usize..(j + len) as usize].to_vec();
                 *out.entry(HookFeature::TypeNgram {
@@ -85,7 +86,10 @@ pub fn ref_boundary_features(cfg: &TrainCfg, chars: &[char], i: usize) -> BTreeM
         if pat.is_empty() || pat.len() > n {
             continue;
         }
-        for start in 0..=n - pat.len() {
+        // an occurrence touches boundary i only if it starts in [i + 1 - len, i + 1]
+        let lo = (i + 1).saturating_sub(pat.len());
+        let hi = (i + 1).min(n - pat.len());
+        for start in lo..=hi {
             if chars[start..start + pat.len()] != pat[..] {
                 continue;
             }
@@ -189,7 +193,14 @@ fn resolve_corpus_sentence(raw: &RawCorpusSentence, palette: &[char], n_tags: us
             _ => UNK,
         })
         .collect();
-    let nt = if raw.tagged { n_tags } else { 0 };
+    // tagged sentences of one corpus do not all have the same number of tag columns
+    let nt = if !raw.tagged {
+        0
+    } else if n_tags > 1 && raw.text[0] & 3 == 1 {
+        n_tags - 1
+    } else {
+        n_tags
+    };
     let tags = (0..n)
         .map(|i| {
             (0..nt)
